@@ -166,6 +166,7 @@ class Points:
         self.line_start = []    # offsets where a whole extra line may be inserted (between blocks)
         self.qty_num = []       # (after-number offset, after-blank offset): between the number tokens of a quantity
         self.qty_lead = []      # directly after the `{` of a component
+        self.num_unit = []      # (after-number offset, after-blank offset): `180 °C` in step text - number, blank, word
         self.excluded = {}      # reason -> count of candidate places not used
 
     def add(self, d, cat, off):
@@ -185,6 +186,9 @@ def _scan_words(P, toks, cat, spaced_cat, nl_ok=False):
     for a, b, c in zip(toks, toks[1:], toks[2:]):
         if a[0] in WORDLIKE and b[0] == "ws" and c[0] not in ("newline",):
             P.add(P.at_blank, spaced_cat, b[3])
+        # a number and the word after it: where an inline quantity (`180 °C`, `20 minutes`) has its value and its unit
+        if cat == "step_text" and a[0] == "int" and b[0] == "ws" and c[0] == "word":
+            P.num_unit.append((a[3], b[3]))
 
 
 def _scan_step(P, toks, ext):
@@ -349,7 +353,12 @@ def points(text, ext):
 
 LINE_COMMENTS = [" c", "c", " note @x{1%g} #p ~{1%min}", " >> a: b", " = s =", "- -", " [- open", "", " é 名"]
 BLOCK_COMMENTS = [" c ", "c", "", " @x{1%g} ", " >> a: b ", " - ] ", " [- ", " -- l ", "\n", " a\nb ", "-"]
-BLANKS = [" ", "  ", "\t", " \t ", "   "]
+# the judged trailing-blank edit appends U+0020 only: the statement says "trailing spaces".  A trailing TAB at a line
+# end inside a component that wraps ("@extra virgin\t\nolive oil{}") stays in the name - Text::text_trimmed collapses
+# runs of ' ' only (Properties/C17.v [C17_trailing_tab_refuted]) - so TAB / mixed blanks are a probe (probe_trail_tab),
+# reported and never judged; on the fence lines of a front matter any blank space may follow ([C17_fence_blind])
+BLANKS = [" ", "  ", "   ", "      "]
+BLANKS_TAB = ["\t", " \t ", "\t ", " \t"]
 EXTRA_LINES = ["", " ", "\t", "-- c", "  -- c ", "[- c -]", " [- a\nb -] ", "-- >> k: v", "-- = s", "[- @a{} -] -- x"]
 
 
@@ -385,8 +394,31 @@ def trail_comment(text, P, rng, mode):
 
 
 def trail_space(text, P, rng, mode):
+    fence = set(P.fence_end)
     pts = _choose(rng, [o for o, _ in P.line_end] + P.fence_end, mode)
-    return _apply(text, [(o, rng.choice(BLANKS)) for o in pts]), len(pts)
+    return _apply(text, [(o, rng.choice(BLANKS + BLANKS_TAB if o in fence else BLANKS)) for o in pts]), len(pts)
+
+
+def trail_tab(text, P, rng, mode):
+    """probe: TAB / mixed blanks at a line end (outside what the statement says)"""
+    pts = _choose(rng, [o for o, _ in P.line_end], mode)
+    return _apply(text, [(o, rng.choice(BLANKS_TAB)) for o in pts]), len(pts)
+
+
+def wrapped_variant(text, P, rng):
+    """a SOURCE, not an edit: the same recipe with some components wrapped over a line end - a blank between the
+    words of a component name, alias or note replaced by a newline (a line break inside a step reads as a blank).
+    The line ends of the judged edits then lie inside a component."""
+    pairs = []
+    for cat in ("comp_name", "note"):
+        pairs += list(zip(P.after_word.get(cat, []), P.at_blank.get(cat, [])))
+    pairs = sorted(set(p for p in pairs if p[0] < p[1] and text[p[0]:p[1]].strip(" \t") == ""))
+    if not pairs:
+        return None
+    chosen = rng.sample(pairs, min(len(pairs), rng.randint(1, 3)))
+    for a, b in sorted(chosen, reverse=True):
+        text = text[:a] + "\n" + text[b:]
+    return text
 
 
 CLAIMED_AFTER = ("step_text", "paragraph_text", "meta_value", "meta_key", "section_name", "comp_name", "note",
@@ -421,7 +453,7 @@ def name_comment_spaced(text, P, rng, mode):
     return mid_comment_spaced(text, P, rng, mode, cats=NAME_SPACED)
 
 
-TRAIL_MULTI = [" [- day one -] -- takes long", " [- a -] [- b -]", " [- a -]  ", "[- a -][- b -]", " [- a -]\t-- c",
+TRAIL_MULTI = [" [- day one -] -- takes long", " [- a -] [- b -]", " [- a -]  ", "[- a -][- b -]", " [- a -]  -- c",
                " [- a -] [- b -] -- c", " [- a -]"]
 
 
@@ -460,11 +492,36 @@ def qty_comment(text, P, rng, mode):
     return _apply(text, ins), len(ins)
 
 
-EDITS = {"trail_comment": trail_comment, "trail_space": trail_space, "trail_multi": trail_multi,
+def unit_comment(text, P, rng, mode):
+    """a block comment between a number and the word after it in step text - between the value and the unit of an
+    inline quantity (`180[- fan: 160 -] °C`, `180 [- c -] °C`, `180 [- c -]°C`): "comments removed when text is
+    assembled", so the INLINE_QUANTITIES search sees `180 °C` (`180  °C`) either way"""
+    pts = _choose(rng, P.num_unit, mode)
+    ins = []
+    for after_num, after_blank in pts:
+        c = "[-" + rng.choice([" fan: 160 ", "c", " c ", "", " 2 kg "]) + "-]"
+        ins.append(rng.choice([(after_num, c), (after_blank, c + " "), (after_blank, c)]))
+    return _apply(text, ins), len(ins)
+
+
+# step text with inline quantities the bundled converter knows (temperatures, times, weights): appended as a block of
+# its own, so that every source has numbers followed by unit words in step text
+INLINE_STEPS = ["Preheat the oven to 180 °C for 20 minutes.", "Bake at 350 F then cool to 4 °C", "Heat 2 l of water to 90 ºC and keep 10 min",
+                "Roast at 200°C or 180 C fan for 1 hour", "Keep at 65 °C\nfor 45 minutes then chill to 5 °C"]
+
+
+def with_inline_quantities(text, rng):
+    """a SOURCE, not an edit: the recipe plus one more step whose text holds inline quantities"""
+    sep = "" if text.endswith("\n\n") or text == "" else ("\n" if text.endswith("\n") else "\n\n")
+    return text + sep + rng.choice(INLINE_STEPS) + "\n"
+
+
+EDITS = {"trail_comment": trail_comment, "unit_comment": unit_comment, "trail_space": trail_space, "trail_multi": trail_multi,
          "mid_comment": mid_comment, "mid_comment_double": mid_comment_double,
          "mid_comment_spaced": mid_comment_spaced, "name_comment_spaced": name_comment_spaced,
          "qty_comment": qty_comment, "extra_lines": extra_lines}
-PROBES = {"probe_brace": ("after", "probe_brace"), "probe_value_spaced": ("blank", "probe_value_spaced")}
+PROBES = {"probe_brace": ("after", "probe_brace"), "probe_value_spaced": ("blank", "probe_value_spaced"),
+          "probe_trail_tab": ("trail_tab", None)}
 
 # ------------------------------------------------------------------ text mode
 # `>> [mode]: text` / `>> [define]: text` (MODES extension): every block below is a paragraph and a component is kept
@@ -484,6 +541,8 @@ def text_mode_variant(text, rng):
 
 def probe(text, P, rng, name):
     how, cat = PROBES[name]
+    if how == "trail_tab":
+        return trail_tab(text, P, rng, rng.choice(["one", "few"]))
     if how == "after":
         return mid_comment(text, P, rng, "one", cats=(cat,))
     return mid_comment_spaced(text, P, rng, "one", cats=(cat,))
